@@ -180,4 +180,94 @@ theorem writeNestedVec_frame (c : Chem) (k : HKey) (xs : List Rat) :
         simp only [List.flatMap_cons, Ent.positions, List.mem_append, not_or] at hj
         rw [a hj.2, writeZip_frame _ _ _ _ hj.1]
 
+theorem nestedPrefix_frame (c : Chem) (k : HKey) (xs : List Rat) :
+    ∀ (es : List Ent) (row : Row) (n : Nat) (j : Nat),
+    (j ∉ es.flatMap Ent.positions → getAt (nestedPrefix c k xs row n es) j = getAt row j) ∧
+      (nestedPrefix c k xs row n es).length = row.length
+  | [], row, n, j => by simp [nestedPrefix]
+  | .pos i :: t, row, n, j => by
+    simp only [nestedPrefix]
+    split
+    · simp
+    · obtain ⟨a, b⟩ := nestedPrefix_frame c k xs t (setAt row i _) (n + 1) j
+      refine ⟨?_, by rw [b, length_setAt]⟩
+      intro hj
+      simp only [List.flatMap_cons, Ent.positions, List.mem_append, List.mem_singleton, not_or] at hj
+      rw [a hj.2, getAt_setAt_ne _ _ hj.1]
+  | .grp is :: t, row, n, j => by
+    simp only [nestedPrefix]
+    split
+    · simp
+    · split
+      · simp
+      · obtain ⟨a, b⟩ := nestedPrefix_frame c k xs t (writeZip row is _) (n + 1) j
+        refine ⟨?_, by rw [b, length_writeZip]⟩
+        intro hj
+        simp only [List.flatMap_cons, Ent.positions, List.mem_append, not_or] at hj
+        rw [a hj.2, writeZip_frame _ _ _ _ hj.1]
+
+theorem nestedScalarPrefix_frame (c : Chem) (k : HKey) (x : Rat) :
+    ∀ (es : List Ent) (row : Row) (n : Nat) (j : Nat),
+    (j ∉ es.flatMap Ent.positions → getAt (nestedScalarPrefix c k x row n es) j = getAt row j) ∧
+      (nestedScalarPrefix c k x row n es).length = row.length
+  | [], row, n, j => by simp [nestedScalarPrefix]
+  | .pos i :: t, row, n, j => by
+    simp only [nestedScalarPrefix]
+    obtain ⟨a, b⟩ := nestedScalarPrefix_frame c k x t (setAt row i x) (n + 1) j
+    refine ⟨?_, by rw [b, length_setAt]⟩
+    intro hj
+    simp only [List.flatMap_cons, Ent.positions, List.mem_append, List.mem_singleton, not_or] at hj
+    rw [a hj.2, getAt_setAt_ne _ _ hj.1]
+  | .grp is :: t, row, n, j => by
+    simp only [nestedScalarPrefix]
+    split
+    · simp
+    · obtain ⟨a, b⟩ := nestedScalarPrefix_frame c k x t (writeZip row is _) (n + 1) j
+      refine ⟨?_, by rw [b, length_writeZip]⟩
+      intro hj
+      simp only [List.flatMap_cons, Ent.positions, List.mem_append, not_or] at hj
+      rw [a hj.2, writeZip_frame _ _ _ _ hj.1]
+
+theorem splitNestedScalar_frame (x : Rat) : ∀ (es : List Ent) (row : Row) (j : Nat),
+    (j ∉ es.flatMap Ent.positions → getAt (splitNestedScalar row x es) j = getAt row j) ∧
+      (splitNestedScalar row x es).length = row.length
+  | [], row, j => by simp [splitNestedScalar]
+  | .pos i :: t, row, j => by
+    simp only [splitNestedScalar]
+    obtain ⟨a, b⟩ := splitNestedScalar_frame x t (setAt row i x) j
+    refine ⟨?_, by rw [b, length_setAt]⟩
+    intro hj
+    simp only [List.flatMap_cons, Ent.positions, List.mem_append, List.mem_singleton, not_or] at hj
+    rw [a hj.2, getAt_setAt_ne _ _ hj.1]
+  | .grp is :: t, row, j => by
+    simp only [splitNestedScalar]
+    obtain ⟨a, b⟩ := splitNestedScalar_frame x t (writeAll row is x) j
+    refine ⟨?_, by rw [b, length_writeAll]⟩
+    intro hj
+    simp only [List.flatMap_cons, Ent.positions, List.mem_append, not_or] at hj
+    rw [a hj.2, writeAll_frame _ _ _ _ hj.1]
+
+theorem splitNestedVec_frame (xs : List Rat) : ∀ (es : List Ent) (row : Row) (n : Nat) (j : Nat),
+    (j ∉ es.flatMap Ent.positions → getAt (splitNestedVec xs row n es).1 j = getAt row j) ∧
+      (splitNestedVec xs row n es).1.length = row.length
+  | [], row, n, j => by simp [splitNestedVec]
+  | .pos i :: t, row, n, j => by
+    simp only [splitNestedVec]
+    split
+    · simp
+    · obtain ⟨a, b⟩ := splitNestedVec_frame xs t (setAt row i _) (n + 1) j
+      refine ⟨?_, by rw [b, length_setAt]⟩
+      intro hj
+      simp only [List.flatMap_cons, Ent.positions, List.mem_append, List.mem_singleton, not_or] at hj
+      rw [a hj.2, getAt_setAt_ne _ _ hj.1]
+  | .grp is :: t, row, n, j => by
+    simp only [splitNestedVec]
+    split
+    · simp
+    · obtain ⟨a, b⟩ := splitNestedVec_frame xs t (writeAll row is _) (n + 1) j
+      refine ⟨?_, by rw [b, length_writeAll]⟩
+      intro hj
+      simp only [List.flatMap_cons, Ent.positions, List.mem_append, not_or] at hj
+      rw [a hj.2, writeAll_frame _ _ _ _ hj.1]
+
 end ThermoVerif.Indexer
